@@ -63,7 +63,7 @@ func H_C08_skip() {
 	vxrt.Flag("test.count", "1")
 
 	// the package has four tests; each may be skipped through the wrappers or run
-	tests := []string{"TestA", "TestA/sub", "TestAB", "TestC", "Test1"}
+	tests := []string{"TestA", "TestA/sub", "TestAB", "TestC", "Test1", "TestOX"}
 	bodies := map[string]string{}
 	content := ""
 	for _, tn := range tests {
@@ -75,7 +75,11 @@ func H_C08_skip() {
 	content += staleAB
 	writeFile(path, content)
 	// the test source that owns the file
-	vxrt.TestSources(vxrt.Dir()+"/f_test.go", "TestA", "TestAB", "TestC", "Test1")
+	vxrt.TestSources(vxrt.Dir()+"/f_test.go", "TestA", "TestAB", "TestC", "Test1", "TestOX")
+	// a stale snapshot file whose test source declares TestO (a test that stores nothing any more):
+	// skipping TestOX must not protect it
+	writeFile(dir+"/old_test.snap", frame("TestO - 1", "gone"))
+	vxrt.TestSources(vxrt.Dir()+"/old_test.go", "TestO")
 
 	// p_test.go: TestP with sub-tests b (no snapshot) and c (one snapshot in p_test.snap)
 	ppath := dir + "/p_test.snap"
@@ -111,6 +115,7 @@ func H_C08_skip() {
 		skipC := vxrt.Bool("skip-TestC")
 		skipAB := vxrt.Bool("skip-TestAB")
 		skip1 := vxrt.Bool("skip-Test1")
+		skipOX := vxrt.Bool("skip-TestOX")
 		wrapper := vxrt.Choice("wrapper", 3)
 		doSkip := func(t *mockT) {
 			switch wrapper {
@@ -124,7 +129,7 @@ func H_C08_skip() {
 		}
 		for _, tn := range tests {
 			t := newT(tn)
-			skipped := tn == "TestA" && skipA || tn == "TestA/sub" && (skipA || skipSub) || tn == "TestC" && skipC || tn == "TestAB" && skipAB || tn == "Test1" && skip1
+			skipped := tn == "TestA" && skipA || tn == "TestA/sub" && (skipA || skipSub) || tn == "TestC" && skipC || tn == "TestAB" && skipAB || tn == "Test1" && skip1 || tn == "TestOX" && skipOX
 			if skipped {
 				// a descendant of a skipped test does not even start
 				if !(tn == "TestA/sub" && skipA) {
@@ -191,6 +196,16 @@ func H_C08_skip() {
 		}
 	}
 	anyRan := len(ran) > 0
+	if mode == 0 {
+		// TestP runs (it stores nothing itself); its sub-test c either skips through the wrapper or runs
+		tc := newT("TestP/c")
+		if vxrt.Bool("skip-TestP/c") {
+			SkipNow(tc)
+		} else {
+			cp.MatchSnapshot(tc, "pc")
+			tc.end()
+		}
+	}
 	// TestP has two sub-tests; only TestP/c stores a snapshot (in p_test.snap)
 	pRanC := false
 	if mode == 1 && runSelects(pattern, "TestP") {
@@ -218,6 +233,13 @@ func H_C08_skip() {
 			vxrt.Assert(!stillThere, "C08:skip-does-not-protect-prefix-sibling")
 			vxrt.Assert(strings.Contains(out, bulletSymbol+"TestAB - 2\n"), "C08:stale-entry-of-prefix-sibling-reported")
 		}
+	}
+	if mode == 0 {
+		// p_test.snap is either addressed or protected by the skip of TestP/c
+		vxrt.Assert(readFile(ppath) == frame("TestP/c - 1", "pc"), "C08:file-of-skipped-subtest-kept")
+		vxrt.Assert(!strings.Contains(out, "p_test.snap"), "C08:file-of-skipped-subtest-not-listed")
+		// old_test.snap is stale whatever was skipped (TestOX merely shares a prefix with TestO)
+		vxrt.Assert(readFile(dir+"/old_test.snap") == "<missing>", "C08:skip-does-not-protect-file-of-prefix-sibling")
 	}
 	if k3 && mode == 1 && !ran["TestC"] {
 		vxrt.Assert(readFile(dir+"/TestC_1.snap") == "standalone-of-C", "C08:standalone-file-of-unselected-test-kept")
